@@ -127,7 +127,7 @@ theorem splitRight_nest (h : SplitOK S ty L p W XL XR) :
   | text _ _ _ _ _ => exact .inl ⟨rfl, by simp [spineL]⟩
   | @deep ty tyC a m pre post kC W' XL XR p hin _ _ =>
     obtain ⟨_, _, i3, _⟩ := hin.depth
-    refine .inr ⟨tyC, a, m, W', rfl, by simp [spineL], i3, ?_⟩
+    refine .inr ⟨tyC, a, m, W', rfl, by simp, i3, ?_⟩
     have := splitRight_elem tyC a m W' [] (1 + spineL W') (by omega) (by omega)
     simpa [spineL] using this
 
@@ -191,9 +191,9 @@ theorem twoWayR (h : SplitOK S ty L p W XL XR) (hn : fnorm L = true) :
         splitRight_elem tyC a m kC post (1 + p) (by omega) (by omega)]
       simp
     unfold twoWay
-    rw [if_neg (by simp [spineL]), if_neg (by simp [spineL]; omega)]
+    rw [if_neg (by simp), if_neg (by simp; omega)]
     simp only [hs, compatibleContent_self, if_true]
-    have e : spineL [Node.elem tyC a m W] - 1 = spineL W := by simp [spineL]
+    have e : spineL [Node.elem tyC a m W] - 1 = spineL W := by simp
     rw [e, ih hk]
     simp only [fromArray_of_fnorm (hin.norm hk).2, close_ok_of_valid S tyC a m XR hin.valid.2]
 
@@ -274,7 +274,7 @@ theorem replaceKids_split {S : Schema} {ty tyP : TypeId} {K : List Node} {b nd :
   rw [if_neg (by simp [inRange]; omega)]
   simp only []
   rw [if_neg (by rw [d1, hdL]; omega), if_neg (by simp),
-    if_neg (by simp [Slice.wf, spineL, spineR, hsr]), d1, hdL,
+    if_neg (by simp [Slice.wf, spineR, hsr]), d1, hdL,
     show nd + (1 + spineL W) - (1 + spineL W) = nd by omega,
     hl.outer _ (fsize pre + 1 + p) (fsize pre + 1 + p) (Nat.le_refl _) hq,
     atLevel_split S h tyP a m pre post hn hvc]
